@@ -1765,4 +1765,21 @@ theorem run_dead (st : StrictTotal gt) (ms : List (Mut K V)) :
 end Hist
 
 end
+/-! ### a concrete instance (used by the non-vacuity examples of `Props/C09.lean`) -/
+
+/-- `>` on naturals -/
+abbrev natGt : Nat → Nat → Bool := fun a b => decide (a > b)
+
+/-- two nodes; cursor 1 stands on key 7 (last slot of node 0), cursor 2 is parked before-first -/
+def exDb9 : Db Nat Nat := ⟨[⟨1, [(9, 90), (7, 70)]⟩, ⟨0, [(4, 40)]⟩], [(1, .at 0 1 0), (2, .head)]⟩
+
+theorem exDb9_inv : NodeInv natGt exDb9.nodes := by
+  refine ⟨?_, ?_⟩
+  · intro n hn
+    simp [exDb9] at hn
+    rcases hn with rfl | rfl <;> simp [cap]
+  · simp [Desc, exDb9, flatten]
+
+theorem exDb9_curOk : CurOk exDb9.nodes (.at 0 1 0) := ⟨_, rfl, by decide⟩
+
 end IwModel.Kv
